@@ -342,9 +342,15 @@ func (g *pgen) caseNode(depth int) J {
 func (g *pgen) forNode(depth int) J {
 	v := pick(g.r, []string{"x", "y", "n"})
 	var coll J
+	num := func(n int) J { // a number as a literal or through an integer variable
+		if g.rich && g.r.Intn(3) == 0 && n >= 0 && n <= 3 {
+			return eVar([]string{"i0", "i1", "i2", "i3"}[n])
+		}
+		return eLit(vInt(n))
+	}
 	switch g.r.Intn(4) {
 	case 0:
-		coll = J{"t": "range", "a": eLit(vInt(g.r.Intn(3))), "b": eLit(vInt(g.r.Intn(5) - 1))}
+		coll = J{"t": "range", "a": num(g.r.Intn(3)), "b": num(g.r.Intn(5) - 1)}
 	default:
 		coll = eVar(pick(g.r, g.arrays))
 	}
@@ -357,10 +363,10 @@ func (g *pgen) forNode(depth int) J {
 		node["rev"] = true
 	}
 	if g.r.Intn(4) == 0 {
-		node["off"] = eLit(vInt(g.r.Intn(4) - 1))
+		node["off"] = num(g.r.Intn(4) - 1)
 	}
 	if g.r.Intn(4) == 0 {
-		node["lim"] = eLit(vInt(g.r.Intn(4) - 1))
+		node["lim"] = num(g.r.Intn(4) - 1)
 	}
 	saved := g.names
 	g.names = append(append([]string{}, g.names...), v)
@@ -371,7 +377,7 @@ func (g *pgen) forNode(depth int) J {
 	if tag == "tablerow" {
 		g.inLoop = 0 // no break / continue / cycle inside tablerow (left open by the statement)
 		if g.r.Intn(2) == 0 {
-			node["cols"] = eLit(vInt(g.r.Intn(4)))
+			node["cols"] = num(g.r.Intn(4))
 		}
 	}
 	node["body"] = g.innerTrims(g.seq(depth, 4))
@@ -569,6 +575,13 @@ func (g *pgen) richEnv() ([]any, J) {
 	}
 	g.maps = []string{"h", "g"}
 	g.arrays = append(g.arrays, "o") // a one-entry map can be looped over (order is not an issue)
+	// small integers for loop modifiers and range endpoints (plain ints, sometimes behind a Drop)
+	for i, n := range []string{"i0", "i1", "i2", "i3"} {
+		add(n, vInt(i))
+		if g.r.Intn(5) == 0 {
+			repr[n] = "drop"
+		}
+	}
 	return env, repr
 }
 
